@@ -331,6 +331,11 @@ def check_normalisation(ctx, f, textvar, outer, itdef):
             continue
         if ok and in_bytes:
             ok2 = isinstance(val, ast.Call) and is_attr(val.func, 'decode', textvar)
+            if not ok2 and isinstance(val, ast.Call):
+                from .. import rules_lexer as RL
+                for h, dp, ep, _ in RL.decode_sites(ctx)[1:]:
+                    if isinstance(val.func, ast.Attribute) and val.func.attr == h.name and RL.is_decode_helper(ctx, h, dp):
+                        ok2 = True
             ctx.ob('R1.8', f'store:{src(s)}', loc(s), 'bytes arm only decodes', ok2, f'`{src(s)}`')
             continue
         n_str += 0 if ok else 1
